@@ -25,6 +25,9 @@ THEOREMS = [
     "iterate_valid_ids_cursor_is_list_cursor",
     "cursor_rests_only_on_owned_ids",
     "query_lists_are_owned_ids",
+    "paged_iterate_ids_cursor_is_paged_list_cursor",
+    "paged_walk_is_page_of_owned_ids",
+    "paged_cursor_rests_only_on_owned_ids",
     "query_with_cursor_only_owned_rows",
     "roles_index_cursor_enumerates_holders",
     "child_store_registration_order_irrelevant",
@@ -159,7 +162,9 @@ def describe(case, impl, model, spec):
                    "X n.<v> r.<v> c.<v> (index reads) D bucket dump; stores 0=A 1=A1(plain child) 2=A2(extended child); "
                    "k cases end with a segment K <item>=<observation>: <store>/i|v/<filter>/<steps> = Current() (- invalid) after opening the "
                    "IterateIds / IterateValidIds cursor and after every step (n = Next, s<k> = Seek to id k, 0 before all, 9 after all); "
-                   "<store>/q/<filter>/<u|s>/<provider> = QueryWithCursorC (s: sort by name) over the listed existing ids (l…) or the roles index cursor (x<role>)")
+                   "<store>/q/<filter>/<u|s>/<provider> = QueryWithCursorC (s: sort by name) over the listed existing ids (l…) or the roles index cursor (x<role>); "
+                   "<store>/p|P/<filter>/<skip>/<limit>/<steps> = the same trace for IterateIds (p) / IterateValidIds (P) of the compiled query '<filter> skip <skip> limit <limit>' (limit - = none); "
+                   "<store>/Q/<filter>/<skip>/<limit> = QueryIds of that query: ids of the page # count of all matching rows")
     if impl is not None and len(impl) < 4000:
         d["impl"], d["model"], d["spec"] = impl, model, spec
     return d
@@ -177,6 +182,9 @@ RULE = ("histories of 4-12 transactions (1-3 operations each; first error aborts
         "transactions), then IterateIds / IterateValidIds cursors of all three stores driven by Next/Seek scripts (a sweep seeking to every "
         "target incl. before-all / after-all / absent ids, each followed by two Next; random scripts of 3-12 steps; filters true, name=v1, "
         "anyOf(roles)=r1) and QueryWithCursorC (unsorted / sort by name) over listed ids or the roles index cursor, every observation compared; "
+        "paged walks (k cases, round 10): every population of 4 (thorough: 5) ids over the five kinds + 200 (thorough 2500) run-structured populations of 8 ids, "
+        "then through every store IterateIds(compiled query with skip 0-4 and limit none / 0-5) walked to the end with Next and driven by random Next/Seek scripts, "
+        "IterateValidIds(query) through the stores that are not extended, and QueryIds of the same query text (page + count), filters true / name=v1 / anyOf(roles)=r1; "
         "g cases: the same schema with the extended child store's strategy registered before the plain child store's (the 54 fixed histories + "
         "random histories), all observations as for h; "
         "every case carries the shape of the layering drawn for it (kind token <kind>~<A1 path>~<A2 path>~<parent base path>): nine shapes with "
@@ -216,6 +224,13 @@ def histogram(lines, impl):
                 p = it.split("/")
                 if p[1] == "q":
                     inc("item:QueryWithCursorC:store%s:%s" % (p[0], "index-cursor" if p[4].startswith("x") else "list"))
+                elif p[1] == "Q":
+                    inc("item:QueryIds-paged:store%s" % p[0])
+                elif p[1] in ("p", "P"):
+                    inc("item:%s-paged:store%s" % ("IterateIds" if p[1] == "p" else "IterateValidIds", p[0]))
+                    inc("paged:skip%s:limit%s" % (p[3] if int(p[3]) < 3 else "3+", "none" if p[4] == "-" else ("0" if p[4] == "0" else "n")))
+                    for st in (p[5].split(".") if p[5] != "-" else []):
+                        inc("step:" + ("Next" if st == "n" else "Seek"))
                 else:
                     inc("item:%s:store%s" % ("IterateIds" if p[1] == "i" else "IterateValidIds", p[0]))
                     for st in (p[3].split(".") if p[3] != "-" else []):
@@ -286,12 +301,12 @@ def shrink(ctx, bad, want_spec_diff):
         # shorten the scripts
         for i in range(len(items)):
             p = items[i].split("/")
-            if len(p) == 4 and p[1] in ("i", "v") and p[3] != "-":
-                steps = p[3].split(".")
+            if ((len(p) == 4 and p[1] in ("i", "v")) or (len(p) == 6 and p[1] in ("p", "P"))) and p[-1] != "-":
+                steps = p[-1].split(".")
                 j = len(steps) - 1
                 while j >= 0 and len(steps) > 1:
                     cand_steps = steps[:j] + steps[j + 1:]
-                    cand_items = items[:i] + ["/".join(p[:3] + [".".join(cand_steps)])] + items[i + 1:]
+                    cand_items = items[:i] + ["/".join(p[:-1] + [".".join(cand_steps)])] + items[i + 1:]
                     if attempt(join_case(kind, txs, cand_items)):
                         steps, items = cand_steps, cand_items
                     j -= 1
